@@ -176,7 +176,7 @@ func runC12(t *testing.T, onDisk bool) {
 				defer removeAll(dir)
 			}
 			bdg := mustOpenBadger(rt, dir)
-			defer bdg.Close()
+			defer closeStore(bdg)
 			l := newLockstep(namedStore{"memory", mem}, namedStore{"badger", bdg})
 			n := rapid.IntRange(5, 40).Draw(rt, "steps")
 			for i := 0; i < n; i++ {
